@@ -295,6 +295,10 @@ def gen_time(run):
   for hi, h in enumerate(fir_pool()):
     yield ("dft-vs-response", hi, n)
     yield ("exponential", hi, n)
+    if len(h) <= 6:
+      for a0 in (2.0, -0.5, 4.0):      # a pure gain in the denominator: the same division in both domains
+        yield ("exponential", hi, n, a0)
+        yield ("impulse-vs-response", hi, n, a0)
   for L in (1, 2, 3, 5, 8, 33, 64, 65, 200):
     for which in ("defining-sum", "multi-frequency", "linearity", "dc-mean"):
       yield (which, L, n)
@@ -310,7 +314,8 @@ def dft_exact(blk, f):
 
 
 def run_time(case):
-  which, arg, n = case
+  which, arg, n = case[:3]
+  a0 = case[3] if len(case) > 3 else 1.0
   ws = [0.0, math.pi, 0.3, 1.0, 2.5, 4.0, 6.0] + [2 * math.pi * k / n + 0.01 for k in range(n)]
   if which == "dft-vs-response":
     h = fir_pool()[arg]
@@ -325,9 +330,21 @@ def run_time(case):
         return bad("dft:impulse-response", "unnormalised DFT of a FIR impulse response must equal freq_response",
                    {"w": w, "H": str(H)}, str(d[0]))
     return R(None, len(h) > 2, which)
+  if which == "impulse-vs-response":
+    # the impulse response actually produced by running the filter, transformed, is the response
+    h = fir_pool()[arg]
+    filt = ZFilter(list(h), [a0])
+    imp = list(filt([1.0] + [0.0] * (len(h) + 2), zero=0.0))
+    for w in ws[:16]:
+      d = dft(list(imp), [w], normalize=False)[0]
+      H = filt.freq_response(w)
+      if abs(d - H) > 64 * len(h) * U * sum(abs(c) for c in h) / abs(a0) + 1e-300:
+        return bad("dft:run-impulse-response", "the DFT of the impulse response obtained by RUNNING the filter must equal "
+                   "freq_response (gain-only denominator %r)" % a0, {"w": w, "H": str(H)}, str(d))
+    return R(None, len(h) > 1, which)
   if which == "exponential":
     h = fir_pool()[arg]
-    filt = ZFilter(list(h))
+    filt = ZFilter(list(h), [a0]) if a0 != 1.0 else ZFilter(list(h))
     for w in ws[:12]:
       N = len(h) + 6
       x = [cmath.exp(1j * w * k) for k in range(N)]
